@@ -277,11 +277,15 @@ func (l *MultiplexingListener) Addr() net.Addr {
 // We call drainConnections here to ensure that senders don't block even though
 // we're no longer accepting them.
 func (l *MultiplexingListener) Close() error {
+	simPoint(l, "close.enter")
 	l.drainConnections()
+	simPoint(l, "close.lock.pre")
 	l.closedMutex.Lock()
+	simPoint(l, "close.lock.post")
 	l.closed = true
 	l.closedOnce.Do(func() { close(l.incoming) })
 	l.closedMutex.Unlock()
+	simPoint(l, "close.unlock.post")
 	return nil
 }
 
@@ -289,15 +293,27 @@ func (l *MultiplexingListener) Close() error {
 // that has been sent to this listener, or net.ErrClosed if the listener has
 // been closed.
 func (l *MultiplexingListener) Accept() (net.Conn, error) {
+	simPoint(l, "accept.select.pre")
+	if simSelect(l, "accept.select") == 1 {
+		select {
+		case <-l.ctx.Done():
+			simPoint(l, "accept.ctxdone")
+			l.drainConnections()
+			return nil, net.ErrClosed
+		default:
+		}
+	}
 	select {
 	case <-l.ctx.Done():
 		// If Close() was called this would happen anyways, but in case it
 		// was only called on the parent context, ensure we drain
 		// connections
+		simPoint(l, "accept.ctxdone")
 		l.drainConnections()
 		return nil, net.ErrClosed
 
 	case in, ok := <-l.incoming:
+		simPoint(l, "accept.recv.post")
 		if !ok || nodeenrollment.IsNil(in.conn) {
 			// Channel has been closed
 			return nil, net.ErrClosed
@@ -353,14 +369,20 @@ func (l *MultiplexingListener) IngressListener(ln net.Listener) error {
 			if err != nil {
 				return
 			}
+			simPoint(l, "ingress.rlock.pre")
 			l.closedMutex.RLock()
+			simPoint(l, "ingress.rlock.post")
 			if l.closed {
 				conn.Close()
 				l.closedMutex.RUnlock()
+				simPoint(l, "ingress.runlock.post")
 				return
 			}
+			simPoint(l, "ingress.send.pre")
 			l.incoming <- splitConn{conn: conn, err: err}
+			simPoint(l, "ingress.send.post")
 			l.closedMutex.RUnlock()
+			simPoint(l, "ingress.runlock.post")
 		}
 	}()
 
@@ -370,13 +392,18 @@ func (l *MultiplexingListener) IngressListener(ln net.Listener) error {
 // IngressConn sends a connection and associated error through the listener
 // as-is. It does not perform any nil checking on the given values.
 func (l *MultiplexingListener) IngressConn(conn net.Conn, err error) {
+	simPoint(l, "ingress.rlock.pre")
+	defer simPoint(l, "ingress.runlock.post")
 	l.closedMutex.RLock()
+	simPoint(l, "ingress.rlock.post")
 	defer l.closedMutex.RUnlock()
 	if l.closed {
 		conn.Close()
 		return
 	}
+	simPoint(l, "ingress.send.pre")
 	l.incoming <- splitConn{conn: conn, err: err}
+	simPoint(l, "ingress.send.post")
 }
 
 // drainConnections ensures we close any connections sent our way once the
@@ -385,14 +412,19 @@ func (l *MultiplexingListener) drainConnections() {
 	if l.cancel != nil {
 		l.cancel()
 	}
+	simPoint(l, "drain.cancel.post")
 	if l.drainSpawned != nil {
 		l.drainSpawned.Do(func() {
 			go func() {
+				simPoint(l, "drainer.recv.pre")
 				for in := range l.incoming {
+					simPoint(l, "drainer.recv.post")
 					if in.conn != nil {
 						_ = in.conn.Close()
 					}
+					simPoint(l, "drainer.recv.pre")
 				}
+				simPoint(l, "drainer.exit")
 			}()
 		})
 	}
